@@ -21,10 +21,10 @@ _API = ["Fb_new", "Fb_empty", "Fb_filled", "Fb_default", "Fb_into_inner", "Fb_le
         "Fb_copy_once_from", "Fb_read_frame"]
 _DF = ["Df_deframe_line", "Df_deframe_crlf", "Df_deframe_null"]
 _READS = ["Fb_read_bytes", "Fb_read_byte", "Fb_try_read_byte", "Fb_try_read_bytes", "Fb_read_all", "Fb_read_and_copy_bytes", "Fb_try_read_exact"]
-_AFB = ["Tk_afb_new", "Tk_afb_empty", "Tk_afb_filled", "Tk_afb_into_inner", "Tk_afb_poll_read", "Tk_afb_poll_write", "Tk_afb_poll_flush", "Tk_afb_poll_shutdown"]
+_AFB = ["Tk_afb_deref", "Tk_afb_deref_mut", "Tk_afb_new", "Tk_afb_empty", "Tk_afb_filled", "Tk_afb_into_inner", "Tk_afb_poll_read", "Tk_afb_poll_write", "Tk_afb_poll_flush", "Tk_afb_poll_shutdown"]
 _AAD_R = ["Ta_achain_poll_read", "Ta_atake_poll_read"]
 _AAD_W = ["Ta_achain_poll_write", "Ta_achain_poll_flush", "Ta_achain_poll_shutdown", "Ta_atake_poll_write", "Ta_atake_poll_flush", "Ta_atake_poll_shutdown"]
-_ASYNC = ["Tk_arf_pre", "Tk_arf_post", "Tk_aco_pre", "Tk_aco_post"]
+_ASYNC = ["Tk_afb_deref", "Tk_afb_deref_mut", "Tk_arf_pre", "Tk_arf_post", "Tk_aco_pre", "Tk_aco_post"]
 GEN_SCOPE = {
     "C01": _API, "C03": _API, "C04": _API + _DF,
     "C02": ["Fb_read_frame", "Transfer"] + _DF, "C05": _DF, "C06": ["Fb_read_frame"] + _DF,
